@@ -370,3 +370,64 @@ Theorem C02_nbx_fair_termination : forall P (R : Z -> list Z) (pay : Z -> Z -> p
   (NbxSched.nbx_rounds P R <= k)%nat -> SemPoll.pfinal s.
 Proof. intros P R pay sorted fuel HR. exact (NbxSched.nbx_fair_termination P R true pay sorted fuel HR). Qed.
 Print Assumptions C02_nbx_fair_termination.
+
+(* SUPERSET WITH ONE ITEM PER RECEIVER in the semantics with polls (cf. C01_superset_every_schedule, C01_superset_fair_termination): final states
+   carry pay q r at the position of sender q *)
+From ScV Require C01.SuperSched.
+Theorem C02_superset_every_schedule : forall P (R extra supers : Z -> list Z) (pay : Z -> Z -> payload) (sorted : bool) (fuel : nat),
+  (forall f, 0 <= f < P -> ssorted (fun x => x) (R f) /\ forall t, In t (R f) -> 0 <= t < P) ->
+  (forall f, 0 <= f < P -> NoDup (extra f) /\ forall t, In t (extra f) -> 0 <= t < P) ->
+  (forall r, 0 <= r < P -> Permutation (supers r) (transpose P R r ++ SuperSched.X P extra r)) ->
+  forall n s, SemPoll.run_p P SuperSched.super_poll SuperSched.super_stags n (SuperSched.super_sys P R true pay extra supers sorted fuel) s ->
+  (n + SuperSched.super_bound P R extra < fuel)%nat ->
+    (SemPoll.pfinal s ->
+       (forall r, 0 <= r < P -> exists o, Permutation o (transpose P R r) /\ (sorted = true -> o = transpose P R r) /\
+                                         SemPoll.ppr s r = Ret (result o (map (fun q => pay q r) o))) /\
+       (forall a b t, SemPoll.pch s a b t = [])) /\
+    (forall r, 0 <= r < P -> (exists o, SemPoll.ppr s r = Ret o) \/
+                             exists s', SemPoll.step_p P SuperSched.super_poll SuperSched.super_stags s r s') /\
+    (exists m s', SemPoll.run_p P SuperSched.super_poll SuperSched.super_stags m s s' /\ (m <= SuperSched.super_bound P R extra)%nat /\ SemPoll.pfinal s').
+Proof.
+  intros P R extra supers pay sorted fuel HR HX Hc.
+  exact (SuperSched.super_every_schedule P R true pay extra supers sorted fuel HR HX (SuperSched.contract_length P R extra supers Hc)).
+Qed.
+Print Assumptions C02_superset_every_schedule.
+Theorem C02_superset_fair_termination : forall P (R extra supers : Z -> list Z) (pay : Z -> Z -> payload) (sorted : bool) (fuel : nat),
+  (forall f, 0 <= f < P -> ssorted (fun x => x) (R f) /\ forall t, In t (R f) -> 0 <= t < P) ->
+  (forall f, 0 <= f < P -> NoDup (extra f) /\ forall t, In t (extra f) -> 0 <= t < P) ->
+  (forall r, 0 <= r < P -> Permutation (supers r) (transpose P R r ++ SuperSched.X P extra r)) ->
+  forall k s, SuperSched.sfair_segs P k (SuperSched.super_sys P R true pay extra supers sorted fuel) s ->
+  (SuperSched.super_rounds P R extra <= k)%nat -> SemPoll.pfinal s.
+Proof.
+  intros P R extra supers pay sorted fuel HR HX Hc.
+  exact (SuperSched.super_fair_termination P R true pay extra supers sorted fuel HR HX (SuperSched.contract_length P R extra supers Hc)).
+Qed.
+Print Assumptions C02_superset_fair_termination.
+
+(* PEX WITH ONE ITEM PER RECEIVER and PAYLOADV FOR PCX / RSX, EVERY SCHEDULE, in the semantics with collectives (C02/CensusvSched.v): the contract
+   hypotheses of C02_pex_program / C02_censusv_program and the round abstraction of the latter discharged (Alltoall with 1 + npay_pex ints per
+   rank; Reduce_scatter_block / accumulate epoch with TWO ints per rank - SemColl.coll_reply with blk = 2) *)
+From ScV Require C02.CensusvSched.
+Theorem C02_pex_every_schedule : forall P (R : Z -> list Z) (hp : bool) (pay : Z -> Z -> payload) sz, 0 < P -> 0 < sz < 2 ^ 31 ->
+  (forall f t, Forall isbyte (pay f t) /\ Z.of_nat (length (pay f t)) = sz) ->
+  forall n s, SemColl.run_c P SemColl.coll_reply n (CensusvSched.pexp_sys P R hp pay sz) s ->
+    (Sem.final s \/ SemColl.can_step_c P SemColl.coll_reply s) /\ (n <= 1)%nat /\ (Sem.final s <-> n = 1%nat) /\
+    (Sem.final s -> (forall r, 0 <= r < P -> Sem.pr s r = Ret (result (transpose P R r) (if hp then map (fun q => pay q r) (transpose P R r) else []))) /\
+                    (forall a b t, Sem.ch s a b t = [])).
+Proof. exact CensusvSched.pexp_every_schedule. Qed.
+Print Assumptions C02_pex_every_schedule.
+
+Theorem C02_censusv_every_schedule : forall kind, kind = K_RSB \/ kind = K_RMA ->
+  forall P (R : Z -> list Z) (len : Z -> Z -> Z) (slice : Z -> Z -> payload) msz (sorted : bool), 0 < P -> 0 < msz ->
+  (forall s r, 0 <= len s r /\ Z.of_nat (length (slice s r)) = len s r * msz) ->
+  (forall f, 0 <= f < P -> ssorted (fun x => x) (R f) /\ forall t, In t (R f) -> 0 <= t < P) ->
+  forall n s, SemColl.run_c P SemColl.coll_reply n (CensusvSched.censusv_sys kind P R len slice msz sorted) s ->
+    (Sem.final s \/ SemColl.can_step_c P SemColl.coll_reply s) /\
+    (n <= CensusvSched.censusv_steps P R slice)%nat /\
+    (Sem.final s <-> n = CensusvSched.censusv_steps P R slice) /\
+    (Sem.final s ->
+       (forall r, 0 <= r < P -> exists o, Permutation o (transpose P R r) /\ (sorted = true -> o = transpose P R r) /\
+          Sem.pr s r = Ret (resultv o (out_offsets (map (fun q => len q r) o)) (concat (map (fun q => slice q r) o)))) /\
+       (forall a b t, Sem.ch s a b t = [])).
+Proof. exact CensusvSched.censusv_every_schedule. Qed.
+Print Assumptions C02_censusv_every_schedule.
